@@ -1,6 +1,10 @@
 package props
 
 import (
+	"testing"
+
+	h "verif/harness"
+
 	"crypto/aes"
 	"crypto/cipher"
 	"encoding/xml"
@@ -23,3 +27,10 @@ func rawCBC(key, iv, raw []byte) ([]byte, error) {
 }
 
 func xmlUnmarshal(b []byte, v interface{}) error { return xml.Unmarshal(b, v) }
+
+// report evaluates one enumerated case and fails the test on an unlisted violation.
+func report[C any](t *testing.T, check string, c C, f func(C) h.Outcome) {
+	if path, v := h.Eval(check, c, f); path != "" {
+		t.Errorf("VIOLATION-CANDIDATE property=%s sig=%s replay=%s\n%s", h.PropOf(check), v.Sig, path, v.Detail)
+	}
+}
